@@ -13,7 +13,7 @@ ASSUMPTIONS = [
     'weights positive',
 ]
 OUTSIDE = ['degrees > 3', 'containers of more than 2 shapes', 'rotation of 2-D shapes about axes other than z']
-BOUNDS = {'quick': 'curve 2-D/3-D, surface (1,2), volume (1,1,1), container of 2 curves / 2 surfaces; translate, scale, rotate(axis 0,1,2); inplace True/False; rational and not; unclamped curve',
+BOUNDS = {'quick': 'curve 2-D/3-D, surface (1,2), volume (1,1,1), container of 2 curves / 2 surfaces; translate, scale, rotate(axis 0,1,2); inplace True/False; rational and not; unclamped curve; shapes sampled on a segment before the transform',
           'thorough': 'additional degrees and knot patterns'}
 
 
